@@ -93,6 +93,9 @@ def convert(infile, out_file_name, **options):  # type: (str, str, **str) -> Non
             db = canmatrix.CanMatrix() if db is None else db
             for frame_name in frame_list:
                 frame_to_copy = dbs[name].frame_by_name(frame_name)
+                if frame_to_copy is None:
+                    logger.error("frame %s not found", frame_name)
+                    continue
                 canmatrix.copy.copy_frame(frame_to_copy.arbitration_id, dbs[name], db)
         if options.get('signals', False):
             signal_list = options['signals'].split(',')
@@ -121,7 +124,10 @@ def convert(infile, out_file_name, **options):  # type: (str, str, **str) -> Non
                             canmatrix.copy.copy_ecu_with_frames(
                                 mergeOpt.split('=')[1], db_temp_list[dbTemp], db)
                         if mergeOpt.split('=')[0] == "frame":
-                            frame_to_copy = db_temp_list[name].frame_by_name(mergeOpt.split('=')[1])
+                            frame_to_copy = db_temp_list[dbTemp].frame_by_name(mergeOpt.split('=')[1])
+                            if frame_to_copy is None:
+                                logger.error("frame %s not found in %s", mergeOpt.split('=')[1], merge_string[0])
+                                continue
                             canmatrix.copy.copy_frame(frame_to_copy.arbitration_id, db_temp_list[dbTemp], db)
 
         if 'renameEcu' in options and options['renameEcu'] is not None:
